@@ -1,9 +1,10 @@
 (* line driver for the checked models of SafetyDefs.v (C14).  All strings are hex: UTF-16 code units
-   (4 digits each) for QString values, bytes (2 digits) for the function signature; "-" = empty.
+   (4 digits each) for QString values, bytes (2 digits) for the function signature; "-" = empty;
+   "~" in a cat / file / func field = the NULL POINTER (rawmsg carries the three C strings as options).
    mode "pattern" (default): <pat16> <type 0..4> <msg16> <cat16> <file16> <func8> <line> <n> {<key16> <val16>}
         -> "ok <out16> <bound>"  or "FAULT-PARSE" / "FAULT-FORMAT" (a checked operation returned None)
    mode "oracle":  same fields followed by <implementation output16>  -> 1/0 = prop_c14_pattern_b
-   mode "pretty":  <colorize> <maxw> <n> {<type> <cat16 or "default"> <msg16>}
+   mode "pretty":  <colorize> <maxw> <n> {<type> <cat16 or "~"> <msg16>}   (the model decides what the default category is)
         -> "ok <out16> ..." (the text after "<time> " of each message) or "FAULT" *)
 open Safety_model
 let rec pos_of_int n = if n = 1 then XH else if n land 1 = 1 then XI (pos_of_int (n lsr 1)) else XO (pos_of_int (n lsr 1))
@@ -21,8 +22,10 @@ let parse_msg = function
     let n = int_of_string n in
     let rec attrs k l = if k = 0 then ([], l) else match l with a :: b :: r -> let (x, y) = attrs (k-1) r in ((un16 a, un16 b) :: x, y) | _ -> ([], []) in
     let (at, rest') = attrs n rest in
-    (un16 pat, { mt = mtype_of (int_of_string ty); text = un16 msg; mfile = un16 file; mfunc = un8 func; mcat = un16 cat;
-                 mline = z_of_int (int_of_string line); mtime = []; mtid = []; mptr = []; attrs = at }, rest')
+    let ptr f s = if s = "~" then None else Some (f s) in
+    (un16 pat, env_of_raw { r_mt = mtype_of (int_of_string ty); r_text = un16 msg; r_file = ptr un16 file; r_func = ptr un8 func;
+                            r_cat = ptr un16 cat; r_line = z_of_int (int_of_string line); r_time = []; r_tid = []; r_ptr = [];
+                            r_attrs = at }, rest')
   | _ -> failwith "bad line"
 let () =
   let mode = if Array.length Sys.argv > 1 then Sys.argv.(1) else "pattern" in
@@ -34,8 +37,8 @@ let () =
         match f with
         | col :: maxw :: n :: rest ->
           let rec items k l = if k = 0 then [] else match l with t :: c :: m :: r ->
-              ((mtype_of (int_of_string t), (if c = "default" then None else Some (un16 c))), un16 m) :: items (k-1) r | _ -> [] in
-          (match pretty_seq_c (col <> "0") (z_of_int (int_of_string maxw)) Z0 (items (int_of_string n) rest) with
+              ((mtype_of (int_of_string t), (if c = "~" then None else Some (un16 c))), un16 m) :: items (k-1) r | _ -> [] in
+          (match pretty_seq_raw_c (col <> "0") (z_of_int (int_of_string maxw)) Z0 (items (int_of_string n) rest) with
            | Some outs -> print_endline ("ok " ^ String.concat " " (List.map hex16 outs))
            | None -> print_endline "FAULT")
         | _ -> print_endline "?"
